@@ -8,6 +8,7 @@ use crate::kani;
 
 // @bound CoverageFormat1 on 16 symbolic bytes (<= 6 glyphs), sorted glyph array (spec precondition), every glyph id; unwind 8
 // @c20
+// @c01
 #[cfg_attr(kani, kani::proof)]
 #[cfg_attr(kani, kani::unwind(8))]
 pub fn c16_coverage1_get_matches_spec() {
@@ -39,6 +40,7 @@ pub fn c16_coverage1_get_matches_spec() {
 
 // @bound CoverageFormat2 on 22 symbolic bytes (<= 3 ranges), spec-conformant ranges (sorted, disjoint, start<=end, startCoverageIndex = running count), every glyph id; unwind 6
 // @c20
+// @c01
 #[cfg_attr(kani, kani::proof)]
 #[cfg_attr(kani, kani::unwind(6))]
 pub fn c16_coverage2_get_matches_spec() {
@@ -78,6 +80,7 @@ pub fn c16_coverage2_get_matches_spec() {
 
 // @bound CoverageFormat2 on 22 ARBITRARY symbolic bytes, every glyph id: no overflow, no panic (font data need not be spec-conformant); unwind 6
 // @c20
+// @c01
 #[cfg_attr(kani, kani::proof)]
 #[cfg_attr(kani, kani::unwind(6))]
 pub fn c16_coverage2_get_total() {
@@ -93,6 +96,7 @@ pub fn c16_coverage2_get_total() {
 
 // @bound ClassDefFormat1 on 16 symbolic bytes (<= 5 classes), every 16-bit glyph id; unwind 8
 // @c20
+// @c01
 #[cfg_attr(kani, kani::proof)]
 #[cfg_attr(kani, kani::unwind(8))]
 pub fn c16_classdef1_get_matches_spec() {
@@ -112,6 +116,7 @@ pub fn c16_classdef1_get_matches_spec() {
 
 // @bound ClassDefFormat2 on 22 symbolic bytes (<= 3 ranges), spec-conformant ranges, every 16-bit glyph id; unwind 6
 // @c20
+// @c01
 #[cfg_attr(kani, kani::proof)]
 #[cfg_attr(kani, kani::unwind(6))]
 pub fn c16_classdef2_get_matches_spec() {
@@ -144,6 +149,7 @@ pub fn c16_classdef2_get_matches_spec() {
 
 // @bound ClassDefFormat1::iter / CoverageTable::iter agree with get on the first 2 items (<= 16 symbolic bytes); unwind 8
 // @c20
+// @c01
 #[cfg_attr(kani, kani::proof)]
 #[cfg_attr(kani, kani::unwind(8))]
 pub fn c16_iter_agrees_with_get() {
